@@ -39,3 +39,20 @@ package hash
 //@ func (*Hash).CompareHash
 //@   nilable-receiver
 //@   ensures ret <==> ((h == nil && other == nil) || (h != nil && other != nil && h.HashType == other.HashType && h.Hash == other.Hash))
+
+// Encodings: base58(protobuf(hash)) and back (laws of base58 and of the
+// generated protobuf code are assumed, see /verif/specs).
+//@ func (*Hash).MarshalString
+//@   nilable-receiver
+//@   ensures h == nil ==> ret == ""
+//@   ensures h != nil ==> ret == b58enc(pbHash(h.HashType, h.Hash))
+
+//@ func (*Hash).MarshalDigest
+//@   nilable-receiver
+//@   ensures h != nil ==> content(ret) == pbHash(h.HashType, h.Hash)
+
+//@ func (*Hash).ParseFromB58
+//@   modifies h
+//@   ensures ret == nil ==> b58ok(ref) && pbHash(h.HashType, h.Hash) == b58dec(ref)
+
+//@ lemma hash-b58-roundtrip: forall t int, d bytes, t2 int, d2 bytes :: pbHash(t2, d2) == b58dec(b58enc(pbHash(t, d))) ==> t2 == t && d2 == d
